@@ -67,7 +67,9 @@ Definition brec : Type := (nat * nat * V * bool)%type.
 Record ustate := US { st : store; us : list updater; blog : list brec }.
 
 Inductive event :=
-| EApply (ups : list (name * upd1 V))
+| EApply (ups : list (name * upd1 V)) (flush_ok : bool)
+      (* applyUpdates; flush_ok: what Cache.Write answers to the flush at its end (an INPUT: the cache is
+         outside the program).  Output OOk / OFail = the error applyUpdates returns to Refresh. *)
 | ELookup (n : name) (v : N) (b : V) (now : Z)
 | ELate (n : name) (ans : option (N * V)) (now : Z)
       (* the locked part of a flight finishing at ANY later point; ans = None: the service failed *)
@@ -108,8 +110,11 @@ Definition new_upd (w : nat) (n : name) (cl : bool) : updater :=
 
 Definition step (s : ustate) (e : event) : ustate * out :=
   match e with
-  | EApply ups =>
-      (US (fst (apply_updates (st s) ups)) (map (mark_since ups) (us s)) (blog s), ONone)
+  | EApply ups flush_ok =>
+      (* store.go applyUpdates: every install and every notification happens in the loop, under the
+         lock, BEFORE flushCacheLocked is called; its error is only passed on to the caller *)
+      (US (fst (apply_updates (st s) ups)) (map (mark_since ups) (us s)) (blog s),
+       match snd (apply_updates (st s) ups) with [] => OOk | _ :: _ => if flush_ok then OOk else OFail end)
   | ELookup n v b now =>
       let '(s1, ok) := secret_locked (st s) n in
       if ok then (US s1 (us s) (blog s), OOk)
@@ -222,7 +227,7 @@ Fixpoint last_install_in (n : name) (ups : list (name * upd1 V)) (acc : option s
 Fixpoint last_install (n : name) (evs : list event) (acc : option src) : option src :=
   match evs with
   | [] => acc
-  | EApply ups :: r => last_install n r (last_install_in n ups acc)
+  | EApply ups _ :: r => last_install n r (last_install_in n ups acc)
   | _ :: r => last_install n r acc
   end.
 
